@@ -75,9 +75,11 @@ func ContextRefRename(from, to string) func(excellent.Expression) bool {
 
 			for _, fn := range funcs {
 				if hasArg(fn, name) {
+					// parameters keep their spelling: two parameters which differ only by case, e.g. (Bar, bar), stay two
+					// parameters, and which of them a reference resolves to (see XObject.Get) stays the same
 					for i := range fn.Args {
 						if sameName(fn.Args[i], name) {
-							fn.Args[i] = fresh
+							fn.Args[i] += strings.TrimPrefix(fresh, name)
 						}
 					}
 					fn.Body.Visit(func(b excellent.Expression) {
